@@ -16,7 +16,8 @@
     X(popsusp) X(ryt) X(rst) X(popexit) X(rexit) X(presume) X(migpool)        \
     X(migsched) X(migxs) X(migrate) X(setcb)                                  \
     X(keyset) X(selfset) X(tset) X(keyget) X(selfget) X(tget)                 \
-    X(xscreate) X(xsbasic) X(setrank) X(rankcheck) X(xsrevive) X(setmain)
+    X(xscreate) X(xsbasic) X(setrank) X(rankcheck) X(xsrevive) X(setmain)      \
+    X(ppush) X(ppushm) X(ppop) X(ppopm) X(premove) X(psize)
 
 enum {
 #define X(n) OP_##n,
@@ -339,6 +340,7 @@ static void op_unlock(actor *a, int m, int variant)
 #include "ops_unit.h"
 #include "ops_switch.h"
 #include "ops_key.h"
+#include "ops_pool.h"
 
 /* ------------------------------------------------------------------ */
 static void exec_op(actor *a, op_t *o)
@@ -548,6 +550,24 @@ static void exec_op(actor *a, op_t *o)
             break;
         case OP_tget:
             op_kget(a, a0, a1, 2);
+            break;
+        case OP_ppush:
+            op_ppush(a, a0, a1, (int)(o->a[2] < 0 ? 0 : o->a[2]), (int)(o->a[3] < 0 ? 0 : o->a[3]));
+            break;
+        case OP_ppushm:
+            op_ppushm(a, o);
+            break;
+        case OP_ppop:
+            op_ppop(a, a0, a1 < 0 ? 0 : a1, o->a[2] < 0 ? 0 : o->a[2]);
+            break;
+        case OP_ppopm:
+            op_ppopm(a, a0, a1, (int)(o->a[2] < 0 ? 0 : o->a[2]));
+            break;
+        case OP_premove:
+            op_premove(a, a0, a1);
+            break;
+        case OP_psize:
+            op_psize(a, a0);
             break;
         case OP_xscreate:
             op_xscreate(a, a0, a1, o->a[2] != 0, 0);
